@@ -265,6 +265,10 @@ func (ctrl *DefaultController) Import(ctx context.Context, stream chan ledger.Lo
 					errors.Is(err, ledgerstore.ErrConcurrentTransaction{}):
 					return NewErrImport(errors.New("concurrent transaction occur" +
 						"red, cannot import the ledger"))
+				case errors.Is(err, ledgerstore.ErrTransactionReferenceConflict{}):
+					// the stream itself is at fault (two of its transactions carry the same reference): a refusal of
+					// the import, not an internal error
+					return NewErrImport(fmt.Errorf("importing log %d: %w", *log.ID, err))
 				}
 				return fmt.Errorf("importing log %d: %w", *log.ID, err)
 			}
